@@ -629,4 +629,30 @@ example : emit (some [47, 13, 10, 120]) [([88], [49])] [.set [97] [98, 10], .app
        (Cookie.strCps "set-cookie", Cookie.strCps "\"k\\073\"=\"\\015\\012v\"; path=/; samesite=lax")] := by
   decide
 
+/-- **C13 on ASGI, text of any width**: the bytes presentation either refuses to emit (some text is outside
+Latin-1: `UnicodeEncodeError`, no header line leaves the application) or emits exactly the clean lines of
+`emitted_lines_clean` - one byte per character, so no CR, LF or NUL byte either. -/
+theorem asgi_emit_refuses_or_clean (redirect : Option Str) (init : List (Str × Str)) (ops : List Op)
+    (cookies : List (Str × Str)) (trace : List (Out × Bool)) (hs : List (Str × Str))
+    (hinit : ∀ kv ∈ init, NoCtl kv.1 ∧ NoCtl kv.2)
+    (h : emitAsgi redirect init ops cookies = .sent trace hs) :
+    wideHeaders hs = false ∧ ∀ kv ∈ hs, NoCtl kv.1 ∧ NoCtl kv.2 := by
+  unfold emitAsgi at h
+  cases he : emit redirect init ops cookies with
+  | crash k => rw [he] at h; cases h
+  | sent t hs' =>
+    rw [he] at h
+    simp only at h
+    by_cases hw : wideHeaders hs' = true
+    · rw [if_pos hw] at h; cases h
+    · rw [if_neg hw] at h
+      cases h
+      exact ⟨by simpa using hw, emitted_lines_clean redirect init ops cookies _ _ hinit he⟩
+
+/-- wide text is refused on ASGI and passed through (clean) on WSGI -/
+example : emitAsgi none [] [.set [120] [20013]] [] = .crash "UnicodeEncodeError" ∧
+    (match emit none [] [.set [120] [20013]] [] with
+     | .sent _ hs => hs.contains ([120], [20013])
+     | _ => false) = true := by decide
+
 end Baize.Headers
